@@ -157,7 +157,11 @@ func (c19) Case(c *core.Ctx) {
 	indented := r.Intn(2) == 0
 	c.Eval()
 
-	// ---- write ----
+	// ---- write (over an existing, longer file in half of the cases: the file must be replaced) ----
+	if r.Intn(2) == 0 {
+		os.WriteFile(fn, bytes.Repeat([]byte("<stale>x</stale>{\"stale\":true}\n"), 200), 0o644)
+		c.Count("written-over-existing-longer-file")
+	}
 	var werr error
 	writer := ""
 	switch {
